@@ -7,8 +7,10 @@
 (*                                                                          *)
 (* A widget tree is T = [n, parent, caps]: widgets 1..n, 1 is the root,     *)
 (* parent[w] (0 for the root), caps[w] = w implements EventCapturer.        *)
-(* A layout L is a sequence of [x, y, w, h, z] per widget: origin relative  *)
-(* to the parent, size, z-index (the last drawn frame).                     *)
+(* A layout L is a sequence of [x, y, w, h, z, hid] per widget: origin      *)
+(* relative to the parent, size, z-index (the last drawn frame); hid = the  *)
+(* widget is not drawn by its parent in that layout (it and its subtree are *)
+(* not part of the frame).                                                  *)
 (* An offer is [w, ph, cls, ret]: widget, phase "cap"/"tgt"/"bub", event    *)
 (* class, and the command tree the handler returned.                        *)
 (*                                                                          *)
@@ -19,13 +21,22 @@
 (*     Whether a capturing *target* also sees the event in the capture      *)
 (*     phase is left open (the statement says "ancestors"; DOM-like         *)
 (*     frameworks differ), so that offer is optional.                       *)
+(*     R1u When the widget holding the focus is not part of the last drawn  *)
+(*     frame (focused before a frame containing it was drawn) its ancestors *)
+(*     are not defined, so only this much is demanded: the phases come in   *)
+(*     the order capture, target, bubble; the one target-phase offer goes   *)
+(*     to the focused widget and to nobody else; nothing follows a consume. *)
+(*     Who gets capture / bubble offers is left open.                       *)
 (*  R2 a mouse event is routed the same way along the chain root ->         *)
 (*     topmost child containing the point -> ... ; the deepest is the       *)
 (*     target.                                                              *)
 (*  R3 every focus command naming a widget other than the focused one       *)
 (*     yields exactly one focus-out to the old and one focus-in to the new  *)
 (*     widget (order between the two left open); naming the focused widget  *)
-(*     yields nothing.                                                      *)
+(*     yields nothing.  Nobody else changes the focus, except: when a       *)
+(*     frame has been laid out that does not contain the focused widget,    *)
+(*     the framework may (need not) move the focus elsewhere, which is a    *)
+(*     focus change like any other (one out, one in).                       *)
 (*  R4 per widget, mouse-enter and mouse-leave alternate starting with      *)
 (*     enter; after a mouse event exactly the chain is hovered; after       *)
 (*     the pointer leaves the root or the terminal loses focus nothing is.  *)
@@ -57,7 +68,9 @@ FocusCmds(ret) == LET f == SelectSeq(Flat(ret), LAMBDA c : c.c = "focus")
 RECURSIVE PathTo(_, _)
 PathTo(T, w) == IF w = 0 THEN <<>> ELSE Append(PathTo(T, T.parent[w]), w)
 
-In(g, px, py) == px >= g.x /\ px < g.x + g.w /\ py >= g.y /\ py < g.y + g.h
+In(g, px, py) == ~g.hid /\ px >= g.x /\ px < g.x + g.w /\ py >= g.y /\ py < g.y + g.h
+(* w is part of the frame drawn from layout L *)
+Present(T, L, w) == \A i \in 1..Len(PathTo(T, w)) : ~L[PathTo(T, w)[i]].hid
 (* painted later = on top: higher z-index, then later sibling *)
 OnTop(L, k, j) == L[k].z > L[j].z \/ (L[k].z = L[j].z /\ k >= j)
 
@@ -96,6 +109,18 @@ WalkWhy(obs, route) ==
   ELSE IF route[1].opt THEN WalkWhy(obs, Tail(route))
   ELSE "offer-wrong-" \o route[1].ph
 
+(* R1u: the focused widget f is not part of the last drawn frame *)
+PhaseRank(ph) == CASE ph = "cap" -> 1 [] ph = "tgt" -> 2 [] ph = "bub" -> 3 [] OTHER -> 0
+UndrawnWhy(obs, f) ==
+  LET tg == {i \in 1..Len(obs) : obs[i].ph = "tgt"} IN
+  IF \E i \in 1..Len(obs) : PhaseRank(obs[i].ph) = 0 THEN "offer-wrong-phase"
+  ELSE IF \E i \in tg : obs[i].w # f THEN "offer-wrong-tgt"
+  ELSE IF \E i \in 1..(Len(obs) - 1) : Has(obs[i].ret, "consume") THEN "offer-after-consume"
+  ELSE IF Cardinality(tg) > 1 THEN "offer-extra-tgt"
+  ELSE IF tg = {} /\ ~(obs # <<>> /\ Has(Last(obs).ret, "consume")) THEN "offer-missing-tgt"
+  ELSE IF \E i \in 1..(Len(obs) - 1) : PhaseRank(obs[i].ph) > PhaseRank(obs[i + 1].ph) THEN "offer-phase-order"
+  ELSE ""
+
 (* ---- R3: focus notifications ---------------------------------------------------*)
 (* fold the focus commands of all offers (in order) from the current focus:   *)
 (* result [cur, notes] with notes = sequence of <<old, new>> changes          *)
@@ -116,6 +141,17 @@ FocusNotesOK(notes, changes) ==
   /\ \A j \in 1..Len(changes) :
        {<<notes[2 * j - 1].cls, notes[2 * j - 1].w>>, <<notes[2 * j].cls, notes[2 * j].w>>}
          = {<<"fout", changes[j][1]>>, <<"fin", changes[j][2]>>}
+
+(* The focus after the commands (fold) and, where a frame was just laid out   *)
+(* (spont) that does not contain it, possibly one more change away from it.   *)
+FocusOK(T, L, notes, fold, spont) ==
+  \/ FocusNotesOK(notes, fold.changes)
+  \/ /\ spont /\ ~Present(T, L, fold.cur)
+     /\ \E x \in 1..T.n : x # fold.cur /\ FocusNotesOK(notes, Append(fold.changes, <<fold.cur, x>>))
+FocusAfter(notes, fold) ==
+  IF Len(notes) = 2 * Len(fold.changes) + 2
+  THEN (IF notes[Len(notes)].cls = "fin" THEN notes[Len(notes)].w ELSE notes[Len(notes) - 1].w)
+  ELSE fold.cur
 
 (* ---- R4: hover ------------------------------------------------------------------*)
 (* per-widget alternation of the observed enter/leave notifications starting  *)
@@ -148,13 +184,19 @@ StepChain(T, st, e) ==
     [] OTHER -> <<>>
 
 StepFocus(st, e) == FocusFold(AllFocusCmds(e.offers), st.focus, <<>>)
+(* the start-up step ends with the first layout (no frame is drawn from it yet) *)
+StepFocusAfter(st, e) == IF e.in.t = "init" THEN FocusAfter(Sel(e.offers, {"fin", "fout"}), StepFocus(st, e))
+                         ELSE StepFocus(st, e).cur
+(* a non-mouse event while the focused widget is not part of the last drawn frame *)
+Undrawn(T, st, e) == e.in.t \in {"key", "custom", "init"} /\ ~Present(T, T.lays[st.lay], st.focus)
 StepHover(st, e) == HoverFold(Sel(e.offers, {"enter", "leave"}), st.hover)
 
 StepWhy(T, st, e) ==
   LET disp  == Sel(e.offers, {e.in.cls})
       other == SelectSeq(e.offers, LAMBDA o : o.cls \notin (Notif \cup {e.in.cls}))
       chain == StepChain(T, st, e)
-      walk  == IF chain = <<>> THEN (IF disp = <<>> THEN "" ELSE "offer-extra-" \o disp[1].ph)
+      walk  == IF Undrawn(T, st, e) THEN UndrawnWhy(disp, st.focus)
+               ELSE IF chain = <<>> THEN (IF disp = <<>> THEN "" ELSE "offer-extra-" \o disp[1].ph)
                ELSE WalkWhy(disp, Route(T, chain))
       hv    == StepHover(st, e)
       want  == CASE e.in.t = "mouse" -> Range(chain)
@@ -165,20 +207,21 @@ StepWhy(T, st, e) ==
      ELSE IF st.redraw /\ e.in.cls # "S" THEN "redraw-lost"   \* the driver waits for the frame after its sentinel
      ELSE IF other # <<>> THEN "foreign-offer"
      ELSE IF walk # "" THEN walk
-     ELSE IF ~FocusNotesOK(Sel(e.offers, {"fin", "fout"}), StepFocus(st, e).changes) THEN "focus-notifications"
+     ELSE IF ~FocusOK(T, T.lays[st.lay], Sel(e.offers, {"fin", "fout"}), StepFocus(st, e), e.in.t = "init")
+          THEN "focus-notifications"
      ELSE IF hv = {0} THEN "hover-alternation"
      ELSE IF hv # want THEN "hover-set"
      ELSE ""
 
 StepNext(st, e) ==
-  [st EXCEPT !.focus = StepFocus(st, e).cur,
+  [st EXCEPT !.focus = StepFocusAfter(st, e),
              !.hover = StepHover(st, e),
              !.redraw = @ \/ AnyHas(e.offers, "redraw"),
              !.refresh = @ \/ AnyHas(e.offers, "refresh"),
              !.quit = @ \/ AnyHas(e.offers, "quit"),
              !.ptr = IF e.in.t = "mouse" THEN <<e.in.x, e.in.y>>
                      ELSE IF e.in.t = "tfout" THEN <<>> ELSE @,
-             !.moved = @ \/ StepFocus(st, e).cur # st.focus,
+             !.moved = @ \/ StepFocusAfter(st, e) # st.focus,
              !.tfin = IF e.in.t = "tfin" THEN TRUE ELSE IF e.in.t = "mouse" THEN FALSE ELSE @]
 
 RECURSIVE Pending(_, _)
@@ -198,7 +241,7 @@ FrameWhy(T, st, e) ==
   IN IF st.over THEN "frame-after-exit"
      ELSE IF e.items = <<>> \/ e.items[1].cls # "draw" THEN "frame-without-draw"
      ELSE IF other # <<>> THEN "foreign-offer"
-     ELSE IF ~FocusNotesOK(Sel(offers, {"fin", "fout"}), FocusFold(AllFocusCmds(offers), st.focus, <<>>).changes)
+     ELSE IF ~FocusOK(T, T.lays[e.lay], Sel(offers, {"fin", "fout"}), FocusFold(AllFocusCmds(offers), st.focus, <<>>), TRUE)
           THEN "focus-notifications"
      ELSE IF hv = {0} THEN "hover-alternation"
      ELSE IF hv # want THEN "hover-set"
@@ -208,7 +251,7 @@ FrameWhy(T, st, e) ==
 FrameNext(st, e) ==
   LET offers == SelectSeq(e.items, LAMBDA o : o.cls # "draw") IN
   [st EXCEPT !.hover = FrameHover(st, e),
-             !.focus = FocusFold(AllFocusCmds(offers), st.focus, <<>>).cur,
+             !.focus = FocusAfter(Sel(offers, {"fin", "fout"}), FocusFold(AllFocusCmds(offers), st.focus, <<>>)),
              !.redraw = Pending(e.items, FALSE),
              !.refresh = AnyHas(offers, "refresh"),
              !.quit = @ \/ AnyHas(offers, "quit"),
